@@ -359,18 +359,18 @@ func (g *genState) genC02() {
 		if g.r.Intn(4) != 0 {
 			in[n-1] = tails[g.r.Intn(len(tails))]
 		}
-		g.decodeAll("alphabet", []string{"parse", "typesize", "walk", "open", "ltab", "mtab", "struct", "bytes", "str"}, in)
+		g.decodeAll("alphabet", []string{"parse", "typesize", "walk", "open", "ltab", "mtab", "struct", "bytes", "str", "typed"}, in)
 	}
 	// size-field attacks: hand-built skeletons whose size varints take boundary values in every
 	// varint width (also non-canonical widths), including sums that wrap 32 bits
-	g.sizeAttacks([]string{"parse", "typesize", "walk", "open", "bytes", "str", "struct", "ltab", "mtab", "parselist", "parsemsg"})
+	g.sizeAttacks([]string{"parse", "typesize", "walk", "open", "bytes", "str", "struct", "ltab", "mtab", "parselist", "parsemsg", "typed"})
 	// structure-aware mutants of valid encodings
 	ncorp := 300
 	if g.thor {
 		ncorp = 3000
 	}
 	for _, v := range g.validCorpus(ncorp) {
-		g.decodeAll("valid", []string{"parse", "typesize", "walk", "open"}, v)
+		g.decodeAll("valid", []string{"parse", "typesize", "walk", "open", "typed"}, v)
 		if len(v) > 4000 {
 			continue
 		}
@@ -409,7 +409,7 @@ func (g *genState) genC02() {
 				m = append(m[:pos], m[pos+1:]...)
 				cat = "mutant-drop"
 			}
-			g.decodeAll(cat, []string{"parse", "typesize", "walk", "open", "parselist", "parsemsg"}, m)
+			g.decodeAll(cat, []string{"parse", "typesize", "walk", "open", "parselist", "parsemsg", "typed"}, m)
 		}
 	}
 }
